@@ -271,7 +271,7 @@ def run_case(sh, case):
 
 
 def run(sh):
-    n = 2000 if sh.tier == 'quick' else 60000
+    n = 2000 if sh.tier == 'quick' else 600000
     pol = ['prng', 'fifo', 'lifo', 'const']
     for i in sh.share(n):
         rng = random.Random(core.stable_int(sh.seed, 'C10', i))
